@@ -24,7 +24,11 @@ import tempfile
 import time
 
 TRACE = "openat,open,creat,mkdir,mkdirat,write,pwrite64,lseek,ftruncate,truncate,rename,renameat,renameat2," \
-        "unlink,unlinkat,rmdir,link,linkat,symlink,symlinkat,newfstatat,stat,lstat,statx"
+        "unlink,unlinkat,rmdir,link,linkat,symlink,symlinkat,newfstatat,stat,lstat,statx," \
+        "writev,pwritev,pwritev2,copy_file_range,sendfile,fallocate,splice"
+
+# mutating calls the plan language has no token for: inside an operation, on a file of the case, they are an error
+UNMODELLED = ("writev", "pwritev", "pwritev2", "copy_file_range", "sendfile", "fallocate", "splice")
 
 LINE = re.compile(r"^(\d+)\s+(.*)$")
 UNFINISHED = re.compile(r"^(.*) <unfinished \.\.\.>$")
@@ -210,6 +214,14 @@ def parse(trace_path, base):
                 continue
             case = cur[0]
             tok = None
+            if name in UNMODELLED:
+                root = os.path.join(base, str(case)) + "/"
+                def under(a):
+                    m3 = re.search(r"<(.*)>", a)
+                    return bool(m3) and unquote(m3.group(1)).decode("latin-1").startswith(root)
+                if any(under(a) for a in args):
+                    problems.append("unmodelled mutating call inside an operation: %s" % body[:160])
+                continue
             if name in ("mkdir", "mkdirat"):
                 p = resolve(args[0], strlit(args[1])) if name == "mkdirat" else resolve(None, strlit(args[0]))
                 rp = rel(case, p)
@@ -264,7 +276,9 @@ def main():
         os.makedirs(base)
         trace = os.path.join(work, "trace.txt")
         env = dict(os.environ)
-        env.update(VERIF_CRASH_PHASE="A", VERIF_CRASH_BASE=base, VERIF_OUT=os.path.join(work, "phaseA.transcript"))
+        marks = os.path.join(work, "marks")
+        env.update(VERIF_CRASH_PHASE="A", VERIF_CRASH_BASE=base, VERIF_OUT=os.path.join(work, "phaseA.transcript"),
+                   VERIF_CRASH_MARKS_FILE=marks)
         env.pop("VERIF_STATS", None)
         cmd = ["strace", "-f", "-y", "-xx", "-s", "1000000", "-e", "trace=" + TRACE, "-e", "signal=none",
                "-o", trace, binp, "-test.run", "^%s$" % test, "-test.count=1", "-test.timeout", "3000s"]
@@ -280,6 +294,12 @@ def main():
         t0 = time.time()
         plans, problems = parse(trace, base)
         tP = time.time() - t0
+        wanted = os.path.getsize(marks) if os.path.exists(marks) else 0
+        if wanted != len(plans):
+            # markers not seen in the trace (strace output or marker call changed): phase B would explore nothing
+            print("recorder problem: the harness bracketed %d operations, the trace shows %d" % (wanted, len(plans)))
+            open(out, "w").close()
+            return 1
         plans_path = os.path.join(work, "plans.txt")
         with open(plans_path, "w") as f:
             for (c, o), toks in sorted(plans.items()):
